@@ -304,8 +304,43 @@ Fixpoint dpn_outer (g : graph) (tau gamma : Q) (w : bool) (nodes : list node) (h
 Definition directed_percolate_network (g : graph) (tau gamma : Q) (w : bool) : samp pgraph :=
   dpn_outer g tau gamma w (gnodes g) pg_empty.
 
-(* the same construction with the drawn values read from tables: what the draws
-   of one run of directed_percolate_network amount to *)
 Definition estimate_directed (g : graph) (tau gamma : Q) (k j : nat) : samp (Q * Q) :=
   bind (directed_percolate_network g tau gamma true)
        (fun h => lift (estimate_from_dir_perc (to_graph h) k j)).
+
+(* ---------------- get_infected_nodes ---------------- *)
+(* for node in initial_recovereds: H.remove_node(node) -- incident arcs and attributes go too *)
+Definition remove_nodes (h : pgraph) (r0 : list node) : pgraph :=
+  mkP (filter (fun x => negb (mem x r0)) (pg_nodes h))
+      (filter (fun e => negb (mem (fst e) r0) && negb (mem (snd e) r0)) (pg_edges h))
+      (filter (fun nd => negb (mem (fst nd) r0)) (pg_dur h))
+      (filter (fun e => negb (mem (fst (fst e)) r0) && negb (mem (snd (fst e)) r0)) (pg_delay h)).
+
+(* a node, or an iterable of nodes: if G.has_node(x): set([x]) else: set(x) *)
+Definition as_set (g : graph) (src : source) : result (list node) :=
+  match src with
+  | One u => if has_node g u then Ok [u] else Err TypeErr
+  | Many l => Ok (dedup l)
+  end.
+
+(* after the percolated network h has been drawn: remove the initially recovered
+   nodes (NetworkXError for a non-node), then the out-component of the initial infecteds *)
+Definition infected_nodes_in (h : pgraph) (i0 r0 : list node) : result (list node) :=
+  if forallb (fun x => mem x (pg_nodes h)) r0
+  then out_component (to_graph (remove_nodes h r0)) (Many i0)
+  else Err PyException.
+
+(* get_infected_nodes(G, tau, gamma, initial_infecteds, initial_recovereds) with explicit
+   initial infecteds (with None the code first picks a random node outside the
+   recovered set; that branch is not modelled); initial_recovereds=None is Many [] *)
+Definition get_infected_nodes (g : graph) (tau gamma : Q) (inf rec : source) : samp (list node) :=
+  match as_set g rec with
+  | Err e => Fail e
+  | Ok r0 =>
+    match as_set g inf with
+    | Err e => Fail e
+    | Ok i0 =>
+      if existsb (fun x => mem x r0) i0 then Fail EoNError      (* "initial infecteds and initial recovereds overlap" *)
+      else bind (directed_percolate_network g tau gamma true) (fun h => lift (infected_nodes_in h i0 r0))
+    end
+  end.
